@@ -30,7 +30,11 @@ CHECKS = {
          "trees): observable state before = after, modulo newly noticed deliveries and SPECIAL-USE re-creation.", "3 C12", MAIL_NOTE, MAIL_TECH),
  "C13": ("Deliveries by an MH agent (stdlib mailbox.MH) interleaved with commands: announced at the end with fresh UIDs, "
          "\\Recent and exactly the agent's flags; .mh_sequences agrees with the sessions' flags and mentions no removed "
-         "message after every flag-changing/removing command.", "3 C13", MAIL_NOTE, MAIL_TECH),
+         "message after every flag-changing/removing command. Added: concurrent windows of three sessions (harness/concdriver.py), "
+         "every other run with an external MH agent delivering while the commands run; TLC (spec/TraceWindowFile.tla) evaluates "
+         "MailProps!FileAgrees on every window's final state and, once every session has passed a sync point, that every message "
+         "file is a message of the mailbox (AnnouncedAfterSync).", "3 C13", MAIL_NOTE,
+         MAIL_TECH + "; TLC validation of the final / settled states of concurrent windows with external deliveries (spec/TraceWindowFile.tla)"),
 }
 NOT_YET = {
 }
